@@ -52,6 +52,11 @@ def run(ctx):
         # nested struct roots through the GENERATED <field>_create_as_root (create_buffer with is_nested, no start_buffer)
         for i in range(n // 3):
             cases.append(E.make_case(rng, s, maxdepth=rng.choice([2, 3]), size=rng.choice([0.3, 1.0]), klass='nested-generated-api', gen_api=True))
+    if nested_schemas and nested_schemas[0].name == 'bnest':
+        # 34..80 and more nested buffers in ONE build (chain + siblings) that repeat the parent's and each other's table shapes: every one is
+        # extracted and must stand alone (no vtable shared with the parent or a sibling, whatever their nest ids)
+        for i in range(10 if not ctx.thorough else 100):
+            cases.append(E.make_many_nested_case(rng, rng.choice([9, 12, 16, 20, 24]), styles=i % 2 == 1))
     E.run_builds(cases)
     E.embed_no_parent(rng, 40 if not ctx.thorough else 400)        # level 0: bytes as they are, no size field header (documented)
     # nested / embedded content with alignment arguments above the 512 byte padding block (embed_buffer align 1024, block_align 1024..32768 of
